@@ -22,12 +22,14 @@ RULE = ('S1: every token sequence over {(,),and,or,not,leaf} up to the length '
         'AST node; S5 every list-of-lists shape up to the size bound via '
         'from_dict, JSON text and YAML text; S6 deep and/or operator words, '
         'with inserted not/parenthesised spans and periodic words to 61 '
-        'tokens.  A case = one rule value; non-trivial = at least 2 leaves '
+        'tokens, each also under three whole-text lexical styles (tabs + '
+        'upper case, newlines + capitalised + glued parentheses, double '
+        'spaces + mixed case).  A case = one rule value; non-trivial = at least 2 leaves '
         'and one operator (S5: at least 2 entries or an inner list of >=2).')
 ASSUMPTIONS = [
     'leaf truth is supplied through real role: checks (role present/absent); '
     'other leaf kinds are covered by C04/C05/C06/C16',
-    'whitespace alphabet: space, tab, newline; keyword casings and/AND/And/aNd',
+    'whitespace alphabet: space, double space, tab, newline, CR+LF; keyword casings and/AND/And/aNd',
     'R-lang reference parser (mc/ref/lang.py) written from the documented '
     'grammar; cross-checked by DP count and brute force',
 ]
@@ -255,7 +257,7 @@ def run_S2(cx, job):
 
 CASES = (str.lower, str.upper, str.capitalize,
          lambda s: s[0].lower() + s[1:].upper())
-GAPS = (' ', '  ', '\t', '\n')
+GAPS = (' ', '  ', '\t', '\n', '\r\n')
 EDGE = ('', ' ', '\n')
 
 
@@ -459,11 +461,38 @@ def _check_tokens(cx, space, toks, nontrivial=True):
             leafs.append('role:' + cx.names[next(it)])
     text = lang.to_text(toks, leafs)
     ast = lang.parse(lang.lex(text))
-    cx.check_rule(space, text, 4,
-                  lambda roles: lang.evaluate(
-                      ast, lambda leaf: leaf[5:] in roles),
-                  nontrivial=nontrivial, routes=('enforce',))
+    exp = lambda roles: lang.evaluate(          # noqa: E731
+        ast, lambda leaf: leaf[5:] in roles)
+    cx.check_rule(space, text, 4, exp, nontrivial=nontrivial,
+                  routes=('enforce',))
+    # the same deep expression under whole-text lexical styles
+    for style in STYLES:
+        t2 = style(toks, leafs)
+        if lang.parse(lang.lex(t2)) != ast:
+            raise core.HarnessError('style changed the sentence: %r' % t2)
+        cx.check_rule(space + '-styled', t2, 4, exp, nontrivial=True,
+                      routes=('enforce',))
     return text
+
+
+def _styled(sep, kw, glue):
+    def render(toks, leafs):
+        it = iter(leafs)
+        words = [next(it) if t == 'L' else (kw(t) if t in ('and', 'or', 'not')
+                                            else t) for t in toks]
+        out = []
+        for i, w in enumerate(words):
+            out.append(w)
+            if i + 1 < len(words):
+                if glue and (w == '(' or words[i + 1] == ')'):
+                    continue
+                out.append(sep)
+        return ''.join(out)
+    return render
+
+
+STYLES = [_styled('\t', str.upper, False), _styled('\n', str.capitalize, True),
+          _styled('  ', lambda k: k[0] + k[1:].upper(), True)]
 
 
 def run_S6a(cx, job):
